@@ -66,7 +66,8 @@ ZERO = {'numpy.sign', 'numpy.angle', 'scipy.signal.argrelextrema', 'numpy.where'
         'builtins.enumerate', 'builtins.str', 'builtins.list', 'builtins.tuple', 'numpy.isfinite',
         'multiprocessing.Pool', 'multiprocessing.current_process', 'builtins.ValueError'}
 ZERO_IF_ZERO = {'numpy.cos', 'numpy.sin', 'numpy.exp', 'numpy.arctan', 'numpy.unwrap', 'numpy.tan', 'numpy.arccos',
-                'numpy.arcsin', 'numpy.log', 'numpy.linspace', 'numpy.lib.scimath.sqrt', 'numpy.round',
+                'numpy.arcsin', 'numpy.log', 'numpy.linspace', 'numpy.lib.scimath.sqrt', 'numpy.emath.sqrt', 'numpy.round',
+                'numpy.arctan2', 'numpy.deg2rad', 'numpy.rad2deg', 'numpy.arccosh', 'numpy.tanh',
                 'numpy.mod', 'numpy.cosh', 'numpy.sinh'}
 ALLOC = {'numpy.zeros', 'numpy.empty'}
 SAME_METH = {'copy', 'astype', 'flatten', 'ravel', 'squeeze', 'reshape', 'sum', 'mean', 'std', 'max', 'min', 'T',
